@@ -20,7 +20,10 @@ RULE = (
     "mutations (delete/insert/replace/swap/duplicate/truncate, 1-4 edits) of corpus programs, corner-catalogue programs and "
     "generated programs; (c) raw character noise; (d) construct splicing: whole constructs (token ranges of declarations, "
     "statements, expressions, declarators, type names recorded by the model renderer) of one generated program inserted into or "
-    "substituted for constructs of another. Oracle: FileAST, or ParseError whose message starts with "
+    "substituted for constructs of another; (e) coverage-guided campaigns (atheris/libFuzzer on the instrumented pycparser package; "
+    "bytes decoded into token sequences over a 150-entry vocabulary or into raw text), half from an empty corpus and half from "
+    "the committed corpus of earlier campaigns, failures bucketed by (exception type, innermost pycparser frame) and re-decided "
+    "by this check. Oracle: FileAST, or ParseError whose message starts with "
     "'<file>:line:col: ' / '<file>:line: ' / '<file>: ' for a file name in play; RecursionError tolerated only for inputs "
     "of more than 100 tokens; CPU-time alarm = non-termination. Non-trivial: the parser requested at least two tokens "
     "beyond the context prefix before deciding (counted by a lexer subclass injected through lexer=); distinct by "
@@ -274,6 +277,41 @@ def noise_shard(arg):
     return st
 
 
+def fuzz_shard(arg):
+    """One coverage-guided campaign (atheris/libFuzzer, vlib/fuzz_parse.py).
+    The child buckets failures instead of stopping; every bucket and every
+    libFuzzer artifact is re-decided here with this module's own oracle."""
+    from ..fuzzdrive import campaign_into
+
+    st = Stats()
+
+    def redecide(text, st, data):
+        sub = Stats()
+        _check_text(text, len(text.split()), 0, sub, "mutant", (text, "f.c"), cpu=60, files=FILES + _line_files(text))
+        st.failures.extend(sub.failures)
+
+    campaign_into(st, arg, "c06", redecide)
+    return st
+
+
+def fuzz_replay_shard(arg):
+    """The committed corpus of earlier campaigns, decoded and decided without
+    the fuzzer (seconds)."""
+    import json
+
+    from .. import fuzz_parse
+
+    here, lo, hi = arg
+    st = Stats()
+    items = json.load(open(os.path.join(here, "corpus", "fuzz_c06.json")))[lo:hi]
+    for hx in items:
+        text = fuzz_parse.decode(bytes.fromhex(hx))
+        if _check_text(text, len(text.split()), 0, st, "mutant", (text, "f.c"), files=FILES + _line_files(text)):
+            st.nt(text)
+        st.classes["fuzz_corpus_replayed"] += 1
+    return st
+
+
 def run(ctx):
     n = ctx.pick(3, 4)
     jobs = [(pi, first, n, "full") for pi in range(len(PREFIXES)) for first in ALPH]
@@ -289,6 +327,16 @@ def run(ctx):
     ctx.map(splice_shard, [(s, ctx.pick(1500, 40000)) for s in ctx.shard_seeds(16, 4)])
     nnoise = ctx.pick(1500, 25000)
     ctx.map(noise_shard, [(s, nnoise) for s in ctx.shard_seeds(16, 2)])
+    cj = os.path.join(ctx.here, "corpus", "fuzz_c06.json")
+    if os.path.exists(cj):
+        import json
+
+        ncorp = len(json.load(open(cj)))
+        step = max(1, (ncorp + 15) // 16)
+        ctx.map(fuzz_replay_shard, [(ctx.here, lo, lo + step) for lo in range(0, ncorp, step)])
+    from ..fuzzdrive import campaign_args
+
+    ctx.map(fuzz_shard, campaign_args(ctx, 10, 20, 25000, 600000, 6))
     ctx.exhaustive = True
     ctx.extra["exhaustive_bounds"] = bounds
     ctx.extra["mutation_bases"] = len(bases())
